@@ -329,4 +329,129 @@ theorem run_config_wf {ops : List Op} (hv : Valid {} ops) (hU : UniformT (build 
     WFCfg (runCfg out until_ maxLoop lazy_ useCache strict) :=
   run_config_wf_of_built (build_builtOk ops {} builtOk_empty hv) hU hc until_ maxLoop lazy_ useCache strict
 
+/-! ### scenarios without groups: the uniformity hypotheses hold outright -/
+
+/-- every simulator was started in the main group -/
+def FlatWorld (w : World) : Prop := ∀ p, p < w.sims.length → (w.decl p).group = []
+
+theorem hasShape_flat_cutoff {d : TI} {gd : Group} (h : HasShape d [] gd) : d.cutoff = 1 := by
+  rw [h.2.2]; simp [Group.depth, Group.common]
+
+theorem flat_trigPath_cutoff {w : World} (h : BuiltOk w) (hf : FlatWorld w) {s t : Sid} {d : TI} (hp : TrigPath w.sims s t d) :
+    d.cutoff = 1 := by
+  have hedge : ∀ m tr, tr ∈ (w.sims.getD m {}).triggers → tr.2.2.cutoff = 1 := by
+    intro m tr htr
+    have hm : m < w.sims.length := by
+      by_cases hm : m < w.sims.length
+      · exact hm
+      · rw [List.getD_eq_getElem?_getD, List.getElem?_eq_none (Nat.le_of_not_lt hm)] at htr
+        cases htr
+    have h2 := (h.trig m hm tr htr).2.1
+    rw [hf m hm] at h2
+    exact hasShape_flat_cutoff h2
+  induction hp with
+  | edge he => exact hedge _ _ he
+  | snoc _ he ih => simp only [TI.add]; rw [ih, hedge _ _ he]; rfl
+
+theorem flat_uniformT {w : World} (h : BuiltOk w) (hf : FlatWorld w) : UniformT w.sims :=
+  fun _ _ _ _ hp hp' => (flat_trigPath_cutoff h hf hp).trans (flat_trigPath_cutoff h hf hp').symm
+
+theorem flat_realPath_cutoff {w : World} (h : BuiltOk w) (hf : FlatWorld w) {s t : Sid} {p : List Sid} {d : TI}
+    (hp : RealPath w.sims s t p d) : d.cutoff = 1 := by
+  have hedge : ∀ m s' d', (s', d') ∈ (w.sims.getD m {}).inputDelays → d'.cutoff = 1 := by
+    intro m s' d' hd
+    have hm : m < w.sims.length := by
+      by_cases hm : m < w.sims.length
+      · exact hm
+      · rw [List.getD_eq_getElem?_getD, List.getElem?_eq_none (Nat.le_of_not_lt hm)] at hd
+        cases hd
+    obtain ⟨h1, h2⟩ := h.inShape m hm (s', d') hd
+    rw [hf s' h1] at h2
+    exact hasShape_flat_cutoff h2
+  induction hp with
+  | edge he => exact hedge _ _ _ he
+  | cons he _ ih => simp only [TI.add]; rw [ih, hedge _ _ _ he]; rfl
+
+theorem flat_uniform {w : World} (h : BuiltOk w) (hf : FlatWorld w) : Uniform w.sims :=
+  fun _ _ _ _ _ _ hp hp' => (flat_realPath_cutoff h hf hp).trans (flat_realPath_cutoff h hf hp').symm
+
+/-- the group every simulator was started in is recorded at `start` and never changes: a scenario is flat iff every `start`
+call names the main group -/
+def flatOps : List Op → Bool
+  | [] => true
+  | .start d :: os => d.group.isEmpty && flatOps os
+  | _ :: os => flatOps os
+
+theorem decls_apply (w : World) (o : Op) : (apply w o).decls = match o with | .start d => w.decls ++ [d] | _ => w.decls := by
+  cases o with
+  | start d => rfl
+  | connect c =>
+    show (w.connect c).1.decls = w.decls
+    rw [connect_eq]
+    have hfold : ∀ (pairs : List (Nat × Nat)) (acc : World × Option BuildErr), (pairs.foldl (foldPairs c) acc).1.decls = acc.1.decls := by
+      intro pairs
+      induction pairs with
+      | nil => intro acc; rfl
+      | cons pr rest ih =>
+        intro acc
+        rw [List.foldl_cons, ih]
+        unfold foldPairs
+        cases hc : World.connectOne acc.1 c pr.1 pr.2 with
+        | error e => rfl
+        | ok w' =>
+          simp only
+          rw [connectOne_eq] at hc
+          split at hc
+          · cases hc
+          split at hc
+          · cases hc
+          split at hc
+          · cases hc
+          injection hc with hc
+          rw [← hc]; rfl
+    simp only
+    split
+    · rw [← hfold c.pairs (w, none)]
+      unfold World.connectAsync
+      split <;> rfl
+    · exact hfold c.pairs (w, none)
+  | initEv p t => rfl
+
+theorem flatWorld_build : ∀ (ops : List Op) (w : World), (∀ d ∈ w.decls, d.group = []) → flatOps ops = true →
+    ∀ d ∈ (build ops w).decls, d.group = []
+  | [], _, h, _ => h
+  | o :: os, w, h, hf => by
+    unfold build
+    rw [List.foldl_cons]
+    refine flatWorld_build os (apply w o) ?_ ?_
+    · rw [decls_apply]
+      cases o with
+      | start d0 =>
+        simp only [flatOps, Bool.and_eq_true, List.isEmpty_iff] at hf
+        intro d hd
+        rcases List.mem_append.mp hd with hd | hd
+        · exact h d hd
+        · rw [List.mem_singleton.mp hd]; exact hf.1
+      | connect c => exact h
+      | initEv p t => exact h
+    · cases o with
+      | start d0 => simp only [flatOps, Bool.and_eq_true] at hf; exact hf.2
+      | connect c => exact hf
+      | initEv p t => exact hf
+
+theorem flatWorld_of_ops {ops : List Op} (hv : Valid {} ops) (hf : flatOps ops = true) : FlatWorld (build ops) := by
+  intro p hp
+  have hb := build_builtOk ops {} builtOk_empty hv
+  have hmem : (build ops).decl p ∈ (build ops).decls := by
+    unfold World.decl
+    rw [List.getD_eq_getElem?_getD, List.getElem?_eq_getElem (by rw [hb.len]; exact hp)]
+    simp
+  exact flatWorld_build ops {} (fun d hd => by cases hd) hf _ hmem
+
+/-- **scenarios without groups**: the run configuration satisfies `WFCfg` with no further hypothesis -/
+theorem run_config_wf_flat {ops : List Op} (hv : Valid {} ops) (hf : flatOps ops = true) {orc : List Nat} {out : List SimCfg}
+    (hc : cacheTriggeringAncestors (build ops).sims orc = .ok out) (until_ maxLoop : Nat) (lazy_ useCache strict : Bool) :
+    WFCfg (runCfg out until_ maxLoop lazy_ useCache strict) :=
+  run_config_wf hv (flat_uniformT (build_builtOk ops {} builtOk_empty hv) (flatWorld_of_ops hv hf)) hc until_ maxLoop lazy_ useCache strict
+
 end Mosaik.Build
